@@ -30,7 +30,7 @@ def cfg_of(c):
 
 def build_engine(K, needs_hist, chains, seed, J, init_cfgs, included=(), excluded=(),
                  store_kernel_states=False, error_tables=None, cap=400, via_builder=False, nq=0, prebuild=False,
-                 error_books=None, minimize_infos=False):
+                 error_books=None, minimize_infos=False, tune_error_chains=(), show_progress=False):
     """prebuild (with via_builder): the builder first builds another engine, which is run to the end and has an epoch
     appended; the engine that is returned is built afterwards from the same builder and must be unaffected."""
     keys = [f"p{k}" for k in range(1, K + 1)]
@@ -39,7 +39,8 @@ def build_engine(K, needs_hist, chains, seed, J, init_cfgs, included=(), exclude
     for k in range(1, K + 1):
         cls = ProbeKernel if not error_books else BOOKED[k]      # classes with their own error books (picklable)
         ker = cls([keys[k - 1]], kidx=k, cap=cap, needs_history=(k in needs_hist),
-                          all_keys=keys, error_table=None if error_tables is None else error_tables[k - 1])
+                          all_keys=keys, error_table=None if error_tables is None else error_tables[k - 1],
+                  tune_error_chains=tune_error_chains)
         kernels.append(ker)
 
     qgs = [ProbeQG(f"qg{g}", keys) for g in range(1, nq + 1)]
@@ -64,7 +65,7 @@ def build_engine(K, needs_hist, chains, seed, J, init_cfgs, included=(), exclude
         b.positions_included = list(included)
         b.positions_excluded = list(excluded)
         b.store_kernel_states = store_kernel_states
-        b.show_progress = False
+        b.show_progress = show_progress
         if prebuild:
             other = b.build()
             other.sample_all_epochs()
@@ -87,7 +88,7 @@ def build_engine(K, needs_hist, chains, seed, J, init_cfgs, included=(), exclude
         position_keys=pos_keys,
         store_kernel_states=store_kernel_states,
         quantity_generators=qgs,
-        show_progress=False,
+        show_progress=show_progress,
         minimize_transition_infos=minimize_infos,
     )
     return eng, kernels, keys
@@ -143,10 +144,12 @@ def _refusal(ex):
 
 
 def run(ops, K=2, needs_hist=(2,), chains=2, seed=0, J=1, init_cfgs=(), included=(), excluded=(),
-        store_kernel_states=False, via_builder=False, meta=None, nq=0, prebuild=False):
+        store_kernel_states=False, via_builder=False, meta=None, nq=0, prebuild=False, tune_error_chains=(),
+        show_progress=False):
     """ops: list of ("append", cfg) | ("next",) | ("all",).  Returns one trace per chain."""
     eng, kernels, keys = build_engine(K, set(needs_hist), chains, seed, J, list(init_cfgs), included,
-                                      excluded, store_kernel_states, via_builder=via_builder, nq=nq, prebuild=prebuild)
+                                      excluded, store_kernel_states, via_builder=via_builder, nq=nq, prebuild=prebuild,
+                                      tune_error_chains=tune_error_chains, show_progress=show_progress)
     if via_builder:
         J = int(eng._jitted_sample_duration)
     evs = {c: [] for c in range(chains)}
@@ -272,7 +275,8 @@ def run(ops, K=2, needs_hist=(2,), chains=2, seed=0, J=1, init_cfgs=(), included
         hdr["scenario"] = {"ops": [list(o) for o in ops], "K": K, "needs_hist": list(needs_hist), "chains": chains,
                            "seed": seed, "J": J, "init_cfgs": list(init_cfgs), "included": list(included),
                            "excluded": list(excluded), "store_kernel_states": store_kernel_states,
-                           "via_builder": via_builder, "nq": nq, "prebuild": prebuild}
+                           "via_builder": via_builder, "nq": nq, "prebuild": prebuild,
+                           "tune_error_chains": list(tune_error_chains), "show_progress": show_progress}
         hdr.update(meta or {})
         traces.append({"hdr": hdr, "ev": ev})
     return traces
